@@ -1,5 +1,9 @@
 """C15 — solver options change performance and search order only, never validity."""
 import itertools
+import tempfile
+import shutil
+import os
+import json
 import random
 
 from . import common, c07
@@ -89,6 +93,11 @@ def configs(tier, has_obj, multi):
     if has_obj:
         for prio in ("pareto", "box", "weight"):
             out.append({"optimizer": "optimize", "optimize_priority": prio, "max_time": 30})
+        out.append({"optimizer": "incremental", "save_intermediate_states": True, "max_time": 30})
+        out.append({"optimizer": "optimize", "optimize_priority": "lex", "verbosity": 2, "max_time": 30})
+    # verbosity switches a process-wide z3 option on: it is run last but one, a plain configuration follows it
+    out.append({"optimizer": "incremental", "verbosity": 2, "max_time": 30})
+    out.append({"optimizer": "incremental", "max_time": 30, "_after_verbose": 1})
     return out
 
 
@@ -118,7 +127,7 @@ def spec_features(spec):
     if not idl:
         f.add("lia")
     # non-linear integer arithmetic: z3's optimisers give no optimality guarantee there
-    if any((w.get("cost") or {}).get("kind") in ("linear", "poly") for w in spec.get("workers", [])):
+    if any((w.get("cost") or {}).get("kind") in ("linear", "poly", "general") for w in spec.get("workers", [])):
         f.add("nonlinear")
     if spec["problem"].get("horizon") is None and any(i["kind"] == "Utilization" for i in spec.get("indicators", [])):
         f.add("nonlinear")
@@ -162,12 +171,30 @@ def solve_one(spec, cfg, py_seed):
     multi = len(spec.get("objectives", [])) > 1
     feats = spec_features(spec)
     c2 = {k: v for k, v in cfg.items() if not k.startswith("_") and v is not None}
+    saved = None
+    if c2.get("save_intermediate_states"):
+        saved = tempfile.mkdtemp(prefix="rtmon_c15_")
+        c2["save_intermediate_states_path"] = saved
     res = pr.run_solve(spec, {"solver": c2, "py_seed": py_seed}, keep=True)
     out = {"outcome": res["outcome"], "exc": res.get("exc"), "failed": [], "opt": None, "clauses": {}}
+    if saved:
+        # one parseable solution file per incumbent of the incremental loop
+        files = sorted(os.listdir(saved))
+        try:
+            docs = [json.load(open(os.path.join(saved, f))) for f in files]
+            out["saved_states"] = len(docs)
+            if res["outcome"] == "sat" and has_obj and cfg.get("optimizer") == "incremental" and not docs:
+                out["failed"].append(["C15.no_intermediate_state_saved", {"files": files}])
+            for d in docs:
+                if set(d.get("tasks", {})) != {t["name"] for t in spec["tasks"]}:
+                    out["failed"].append(["C15.intermediate_state_tasks", {"tasks": sorted(d.get("tasks", {}))}])
+        except Exception as exc:  # pylint: disable=broad-except
+            out["failed"].append(["C15.intermediate_state_unreadable", {"exc": str(exc)[:200]}])
+        shutil.rmtree(saved, ignore_errors=True)
     if res["outcome"] == "sat":
         rep, _P = rs.evaluate_observed(spec, res["sched"])
         out["clauses"] = rep.counts()
-        out["failed"] = [[cl, d] for cl, d in rep.failed() if cl.startswith(("C01.", "C02.", "C03.", "C04.", "C09."))]
+        out["failed"] += [[cl, d] for cl, d in rep.failed() if cl.startswith(("C01.", "C02.", "C03.", "C04.", "C09."))]
         if has_obj:
             finished = True
             if cfg.get("optimizer") == "incremental":
